@@ -559,7 +559,8 @@ func (c *constraint) matchesCaret(version *Version) bool {
 			// General rule: exclude prereleases of the same version (like 1.2.3-alpha for ^1.2.3)
 			return false
 		}
-		return false // Don't accept prereleases of different versions
+		// Prereleases of other versions are ordinary members of the interval:
+		// ^1.0.0 contains 1.1.0-alpha1, which lies between 1.0.0 and 1.1.0
 	}
 
 	// For other versions (both stable or both prerelease), use standard >=constraint and <nextMajor logic
